@@ -152,3 +152,39 @@ def socket_level(chk, prefixes, types, depth, nrand, drops=True, faults=True):
             chk.case(("rnd", t, json.dumps(s["ops"])[:2000]))
         v = run_scripts(chk, scripts, "dlv-rnd-" + t)
         report(chk, v, scripts, prefixes, "random")
+
+
+def flood(chk, prefixes, nper, clients, msgs):
+    """uncontrolled schedules: raw TCP / IPC clients flood a real socket from their own tasks on the multi-threaded runtime;
+    the recorded global order is validated against TraceDelivery like every other trace"""
+    import subprocess, shutil
+    rng = random.Random(chk.seed * 31 + 7)
+    scripts, scen = [], 900000
+    for t in S.RECV_TYPES:
+        for i in range(nper):
+            scen += 1
+            ep = "tcp://127.0.0.1:0" if (i + len(t)) % 2 else "ipc://$DIR/f%d.sock" % scen
+            scripts.append({"scen": scen, "sock": t, "ops": [{"op": "bind", "name": "a", "ep": ep},
+                                                             {"op": "mt_flood", "name": "a", "clients": rng.randint(2, clients), "msgs": rng.randint(msgs // 2, msgs), "seed": rng.randrange(1 << 30)}]})
+    inp = os.path.join(chk.wd, "flood.in"); out = os.path.join(chk.wd, "flood.trace")
+    ipcdir = os.path.join(vlib.WORK, "ipc-flood-%d" % os.getpid())
+    shutil.rmtree(ipcdir, ignore_errors=True); os.makedirs(ipcdir)
+    vlib.write_ndjson(inp, scripts)
+    rc, o, dt = vlib.sh([vlib.ZV, "net", "--in", inp, "--out", out, "--dir", ipcdir], timeout=3000)
+    shutil.rmtree(ipcdir, ignore_errors=True)
+    if rc != 0:
+        chk.violation("%s/process-abort" % chk.pid, {"what": "the flood driver died", "tail": o[-300:]}, {"kind": "net", "script": scripts[0]})
+        return
+    rows = [r for r in vlib.read_ndjson(out) if r["ev"] in ("reset", "attach_ret", "peer_wrote", "recv_ret", "quiescent", "panic")]
+    flt = out + ".flt"
+    vlib.write_ndjson(flt, rows)
+    viols, consumed, total, info = vlib.tlc_trace("TraceDelivery", "TraceDelivery.cfg", flt, chk.wd, timeout=3000)
+    chk.traces += len(scripts); chk.states += info["distinct"]; chk.transitions += info["generated"]
+    for s in scripts:
+        chk.case(("flood", s["sock"], s["scen"]))
+    chk.notes.setdefault("trace_validation", []).append({"family": "multi-threaded flood over real TCP/IPC", "scenarios": len(scripts), "events": total, "monitor": "TraceDelivery", "driver_s": round(dt, 1)})
+    byscen = {s["scen"]: s for s in scripts}
+    for scen, code, line in viols:
+        if any(code.startswith(p) for p in prefixes):
+            sc = byscen.get(scen)
+            chk.violation(code, {"layer": "real-transport, multi-threaded", "family": "flood", "scenario": scen, "sock": sc and sc["sock"], "trace_line": line}, {"kind": "net", "script": sc})
